@@ -135,6 +135,7 @@ func runC15(c *Ctx) {
 		n := runBufDisc(c, p, "C15.append")
 		c.R.Floor("C15.append", p.Cfg.Name, n, 90)
 		ruleEndian(c, p, "C15.endian")
+		ruleClones(c, p, "C15.clones")
 		ruleGrowByAppend(c, p, "C15.fresh")
 		ruleReaderSource(c, p, "C15.source")
 	}
